@@ -42,6 +42,13 @@ func checkC15(w *World, tier string) *Report {
 		r.need("R10.4", 7)
 		r.Explanation += " R10.4 (shared with C10) the address a frame's code operates on (Contract.Address, the CALLCODE/DELEGATECALL frame constructors) is the reference's: transient storage is keyed by it."
 	}
+	// seventh batch: "restored when a frame reverts" rests on the frame entry points reverting to their snapshot on
+	// every failure (a CREATE whose code deposit runs out of gas included): C04's path rule R4.1 over the five
+	// entry points, and the embedding of create; and "the fixed fee" rests on the instruction-set constructors
+	emitReturnRule(w, r, "R4.1", nil)
+	s.cloneRule(r, "R15.4", pkVM, func(name string, pr *PairResult) bool { return name == "(*EVM).create" || name == "(*EVM).Call" })
+	r.need("R15.4", 2)
+	r.Explanation += " R4.1 (shared with C04) every failing path of the five frame entry points passes RevertToSnapshot, which is what rolls transient storage back; R15.4 (shared with C01) Call and create embed the reference's bodies."
 	addR152(w, r, "R15.2")
 	addTableRules(w, r, "R15.2t")
 	addR153(w, r, "R15.3")
